@@ -320,10 +320,33 @@ func emit(an *analysis, verbose bool) string {
 		if strings.HasPrefix(via, "call:") && strings.HasSuffix(via, ").Validate") {
 			via = "Validate"
 		}
-		cps = append(cps, fmt.Sprintf("(%s, %s, %s)", q(tn), q(st.fn.decl.Name.Name), q(via)))
+		depth := "deep"
+		if st.direct {
+			depth = "direct"
+		}
+		cps = append(cps, fmt.Sprintf("(%s, %s, %s, %s)", q(tn), q(st.fn.decl.Name.Name), q(via), q(depth)))
 	}
-	w("/-- F2b: (type, method, how) for every store through the codec.Parameters argument of a codec method;\n    `Validate` = by calling the parameter object's Validate method (see the V_* store conditions) -/\n")
-	w("def codecParameterStores : List (String × String × String) := %s\n\n", leanList(uniqSorted(cps), true))
+	w("/-- F2b: (type, method, how, direct | deep) for every store through the codec.Parameters argument of a codec\n    method.  `Validate` = by calling the parameter object's Validate method (see the V_* store conditions).\n    direct = into the parameters object itself (the typed pointer obtained from the argument by type assertion, or\n    anything derived from it without a copy: `jp.F = v`, also inside callees that receive the pointer);\n    deep = somewhere in memory reachable from it (object-level aliasing: over-approximate) -/\n")
+	w("def codecParameterStores : List (String × String × String × String) := %s\n\n", leanList(uniqSorted(cps), true))
+	// where exactly: every direct store through a parameter that is a typed parameters object (pointer to a struct
+	// implementing codec.Parameters), outside the methods of that type
+	var tps []string
+	paramsIface := findIface(prog, "/pkg/imaging/codec", "Parameters")
+	for _, st := range an.pstores {
+		if !st.direct || !st.fn.pkg.isLib || st.fn.decl == nil || strings.HasPrefix(st.kind, "call:") {
+			continue
+		}
+		pt, ok := st.root.Type().(*types.Pointer)
+		if !ok || paramsIface == nil || !types.Implements(pt, paramsIface) {
+			continue
+		}
+		if st.fn.hasRecv && types.Identical(st.fn.params[0].Type(), st.root.Type()) && st.fn.pidx[st.root] == 0 {
+			continue // the type's own methods (Validate, With…, SetParameter)
+		}
+		tps = append(tps, fmt.Sprintf("(%s, %s, %s, %s)", q(st.fn.name), q(st.root.Name()), q(st.field), q(st.kind)))
+	}
+	w("/-- every direct store through a function parameter that is a typed parameters object, outside that type's own\n    methods: (function, parameter, field, kind).  Helpers that fill a freshly created object appear here; whether\n    the object is the caller's is decided at the codec method (codecParameterStores) -/\n")
+	w("def typedParameterDirectStores : List (String × String × String × String) := %s\n\n", leanList(uniqSorted(tps), true))
 	w("/-- F2: (type, method, cell type) for every store through the receiver of such a method (transitively) -/\n")
 	w("def codecRecvStores : List (String × String × String) := %s\n\n", leanList(f2, true))
 
@@ -525,6 +548,19 @@ func emit(an *analysis, verbose bool) string {
 			len(prog.pkgs), len(an.flist), len(an.pvlist), len(an.stores), nRuntime, len(codecTypes), len(items))
 	}
 	return b.String()
+}
+
+func findIface(prog *program, pkgSuffix, name string) *types.Interface {
+	for path, p := range prog.byPath {
+		if strings.HasSuffix(path, pkgSuffix) && p.tpkg != nil {
+			if tn, ok := p.tpkg.Scope().Lookup(name).(*types.TypeName); ok {
+				if it, ok := tn.Type().Underlying().(*types.Interface); ok {
+					return it
+				}
+			}
+		}
+	}
+	return nil
 }
 
 func findCodecIface(prog *program) *types.Interface {
